@@ -116,11 +116,91 @@ fn arg(args: &[String], name: &str) -> Option<String> {
     args.iter().position(|a| a == name).and_then(|i| args.get(i + 1).cloned())
 }
 
+/// child process: compiles grammar texts sent as JSON lines (a stack overflow of the tree's generator then kills
+/// only the child, and the parent can attribute it to the grammar in flight)
+fn worker() {
+    use std::io::{BufRead, Write};
+    let stdin = std::io::stdin();
+    let mut out = std::io::stdout();
+    for line in stdin.lock().lines().flatten() {
+        let v: serde_json::Value = match serde_json::from_str(&line) {
+            Ok(v) => v,
+            Err(_) => continue,
+        };
+        let text = v["text"].as_str().unwrap_or("");
+        let derives: Vec<String> = v["derives"].as_array().map(|a| a.iter().map(|x| x.as_str().unwrap_or("").to_string()).collect()).unwrap_or_default();
+        let ctx = v["user_ctx"].as_bool().unwrap_or(false);
+        let ans = match compile_text(text, &derives, ctx) {
+            Ok(code) => serde_json::json!({"ok": true, "code": code}),
+            Err((stage, msg)) => serde_json::json!({"ok": false, "stage": stage, "msg": msg}),
+        };
+        let _ = writeln!(out, "{}", ans);
+        let _ = out.flush();
+    }
+}
+
+pub struct Compiler {
+    child: Option<(std::process::Child, std::process::ChildStdin, std::io::BufReader<std::process::ChildStdout>)>,
+}
+
+impl Compiler {
+    pub fn new() -> Self {
+        Compiler { child: None }
+    }
+    fn spawn(&mut self) {
+        let exe = std::env::current_exe().unwrap();
+        let mut c = std::process::Command::new(exe)
+            .arg("worker")
+            .stdin(std::process::Stdio::piped())
+            .stdout(std::process::Stdio::piped())
+            .stderr(std::process::Stdio::null())
+            .spawn()
+            .unwrap();
+        let i = c.stdin.take().unwrap();
+        let o = std::io::BufReader::new(c.stdout.take().unwrap());
+        self.child = Some((c, i, o));
+    }
+    pub fn compile(&mut self, text: &str, derives: &[String], user_ctx: bool) -> Result<String, (String, String)> {
+        use std::io::{BufRead, Write};
+        if self.child.is_none() {
+            self.spawn();
+        }
+        let line = serde_json::json!({"text": text, "derives": derives, "user_ctx": user_ctx}).to_string();
+        let (_, i, o) = self.child.as_mut().unwrap();
+        let mut ans = String::new();
+        let ok = writeln!(i, "{}", line).is_ok() && i.flush().is_ok() && o.read_line(&mut ans).map(|n| n > 0).unwrap_or(false);
+        if !ok {
+            if let Some((mut c, _, _)) = self.child.take() {
+                let _ = c.kill();
+                let _ = c.wait();
+            }
+            return Err(("codegen_crash".into(), "the code generator process died (stack overflow / abort)".into()));
+        }
+        let v: serde_json::Value = serde_json::from_str(&ans).map_err(|e| ("codegen_crash".to_string(), e.to_string()))?;
+        if v["ok"].as_bool() == Some(true) {
+            Ok(v["code"].as_str().unwrap_or("").to_string())
+        } else {
+            Err((v["stage"].as_str().unwrap_or("").to_string(), v["msg"].as_str().unwrap_or("").to_string()))
+        }
+    }
+}
+
+impl Drop for Compiler {
+    fn drop(&mut self) {
+        if let Some((mut c, i, _)) = self.child.take() {
+            drop(i);
+            let _ = c.kill();
+            let _ = c.wait();
+        }
+    }
+}
+
 fn main() {
     std::panic::set_hook(Box::new(|_| {}));
     let args: Vec<String> = std::env::args().collect();
     let cmd = args.get(1).map(|s| s.as_str()).unwrap_or("");
     match cmd {
+        "worker" => worker(),
         "gen" => gen(&args),
         "one" => one(&args),
         _ => {
@@ -136,10 +216,11 @@ fn build_batch(specs: Vec<GrammarSpec>, out: &Path, crates: usize, plan: &str, s
     let mut failures: Vec<Failure> = vec![];
     let mut entries: Vec<(GrammarSpec, String, String, String)> = vec![]; // spec, text, code, glue
     let mut scans: BTreeMap<String, Vec<String>> = BTreeMap::new();
+    let mut compiler = Compiler::new();
     for mut spec in specs {
         let with_w = if spec.flags.no_wrappers { spec.model.clone() } else { verif_core::gen::with_wrappers(&spec.model) };
         let text = printer::print_canonical(&with_w);
-        match compile_text(&text, &spec.cfg.derives, spec.cfg.user_ctx) {
+        match compiler.compile(&text, &spec.cfg.derives, spec.cfg.user_ctx) {
             Err((stage, message)) => {
                 failures.push(Failure { id: spec.id.clone(), stage, message, text, spec });
             }
